@@ -57,6 +57,17 @@ CHECKS["C13"] = dict(
     note="petgraph::Graph storage (adjacency order: newest edge first) and the FixedBitSet visit map are summaries. Reading "
          "buildpack.toml/package.toml into nodes is outside (C08/C14/C15). " + BASE_NOTE)
 
+CHECKS["C04"] = dict(
+    text="Bounded model checking from MIR of LayerEnv::{new, insert, apply}, LayerEnvDelta::{insert, apply, delimiter_for}, "
+         "ModificationBehavior::cmp/partial_cmp and Env::{new, insert, get, contains_key, clone}: up to 2 (quick) / 3 (thorough) inserts, each "
+         "any of 5 scopes x 5 behaviours x 2 names with an arbitrary (unbounded, possibly empty) string value, 5 query scopes incl. an "
+         "unknown process, each name initially unset or set to an arbitrary string. Per path the solver decides that the resulting "
+         "environment equals the CNB modification rules (spec/env_rules.py) for every variable, that untouched variables and the input "
+         "environment are unchanged; both insertion orders of every pair are among the explored paths.",
+    design_ref="DESIGN.md §5 C04",
+    technique="symbolic execution of rustc MIR (mirsym) with string-valued SMT variables + z3; oracle = CNB rules as an SMT term; witness replay on the real crate",
+    note="OsString = string of code units; BTreeMap ordered by the key's own Ord (MIR). " + BASE_NOTE)
+
 NOT_YET = "check not built yet in this round (see DESIGN.md §9 build order); no claim is made"
 NOT_APPLICABLE = {}
 ALL = [f"C{i:02d}" for i in range(1, 21)]
